@@ -68,3 +68,47 @@ prop("C12", [
     "EXECVE arguments are not whole placeholders; IPv6 flowinfo < 2^28; unix paths non-abstract; IPs compared as addresses",
     "errno names come from the kernel header snapshot; arch/syscall names from the exported tables (what the property calls the published tables)"],
    nontrivial_classes=["hex-encoded-decoded-value", "derived-field", "kind-sockaddr", "kind-execve", "kind-proctitle", "kind-kthread"])
+
+RULES = "props/rules"
+OPS = ["operator-" + o for o in ["=", "!=", "<", ">", "<=", ">=", "&", "&="]]
+CLASSES = ["field-class-" + c for c in ["num", "uid", "gid", "string", "exit", "exit-name", "msgtype", "msgtype-name", "msgtype-unknown",
+                                       "arch", "perm", "filetype", "inode", "saddr_fam", "compare"]]
+
+prop("C06", [
+    S(RULES, "^TestC06Regress$", kind="plain"),
+    S(RULES, "^TestC06Syscalls$", kind="plain"),
+    S(RULES, "^TestC06Grid$", kind="plain"),
+    S(RULES, "^TestC06$", q=30000, t=500000, shards=16, timeout_t=3000),
+], ["UAPI constants and x86_64/i386/aarch64 syscall numbers come from the committed kernel header snapshot",
+    "rejection is never demanded (the property speaks about accepted rules); whatever is accepted must decode to exactly what was asked",
+    "flags route: a value never starts with '=' or an operator character, keys/syscalls contain no comma, no whitespace at the ends of values",
+    "'-S all' stands alone"],
+   nontrivial_classes=["accepted", "route-struct", "route-flags", "watch", "prepend"] + OPS + CLASSES)
+
+prop("C07", [
+    S(RULES, "^TestC07Regress$", kind="plain"),
+    S(RULES, "^TestC07Syscalls$", kind="plain"),
+    S(RULES, "^TestC07$", q=30000, t=1000000, shards=16, timeout_t=3000),
+], ["string values: non-empty, no whitespace, none of ' \" \\ (ToCommandLine does not quote)",
+    "rules with a perm filter use an existing scratch file for path= and an existing scratch directory for dir= (watch-shaped rules agree with the filesystem)",
+    "runs on amd64 with resolveIds=false", "known finding arch-not-first-reordered: equality up to moving the arch triple to the front"],
+   nontrivial_classes=["accepted", "operator-not-equal-sign", "id-ge-2^31", "arch-other-than-runtime", "numeric-syscall", "multi-key", "displayed-as-watch"])
+
+prop("C13", [
+    S(RULES, "^TestC13Regress$", kind="plain"),
+    S(RULES, "^TestC13HeaderWords$", kind="plain", timeout_t=3000),
+    S(RULES, "^TestC13$", q=40000, t=1000000, shards=16, timeout_t=3000),
+    S(RULES, "", kind="fuzz", fuzz="FuzzToCommandLine", fuzztime_t=100),
+    S(RULES, "", kind="fuzz", fuzz="FuzzFlagsParse", fuzztime_t=100),
+    S(RULES, "", kind="fuzz", fuzz="FuzzBuild", fuzztime_t=100),
+], ["typed-nil rule pointers are not Rule values and are not passed",
+    "allocation bound: 1 MiB + 64 x input length per call, measured with runtime/metrics in a single-threaded section",
+    "absence of panics is sampled, not proved; hang watchdog 30 s per case"],
+   nontrivial_classes=["kind-build", "kind-decode", "kind-parse", "passed-first-stage-build", "passed-first-stage-decode", "passed-first-stage-parse"])
+
+prop("C14", [
+    S(RULES, "^TestC14Regress$", kind="plain"),
+    S(RULES, "^TestC14$", q=40000, t=1000000, shards=16, timeout_t=3000),
+], ["acceptance is never demanded; whitespace at the ends of field/value/list items may be trimmed; empty list items may be dropped; a bare trailing '--' is tolerated",
+    "'longest operator at that position' resolves the textual ambiguity of values that start with '='"],
+   nontrivial_classes=["accepted", "rejected", "accepted-with-special-value", "junk-line-rejected"])
